@@ -124,15 +124,48 @@ def run(ctx):
                     "queue %s is not paired with the matching update of %s" % (kind, ctr), where(f, n.stmt),
                     "threshold accounting drifts: batches dispatched too early/late or never",
                     facts=["counter nodes=%d" % len(cn), "direction ok=%s" % dir_ok])
-    # quantities: message count = len(msgs); bytes = sum len(m) over non-None
-    mc = [x for x in walk_body_shallow(sendm.body) if isinstance(x, ast.Assign) and unparse(x.targets[0]) == "msg_cnt"]
-    r.check(bool(mc) and all(norm(x.value) == "len(msgs)" for x in mc), "%s#msg-count-quantity" % sendm.qname,
-            "queued message count is not len(msgs)", where(sendm, mc[0] if mc else sendm.node))
+    # quantities (sibling agreement): enqueue adds len(msgs) / sum of len(m) over non-null m; dequeue subtracts the same
+    msgs_p = sendm.params[3] if len(sendm.params) > 3 else "msgs"
+    incs = {}
+    for n in cf.nodes:
+        if n.kind == "stmt" and isinstance(n.stmt, ast.AugAssign) and self_attr(n.stmt.target) in COUNTERS and isinstance(n.stmt.op, ast.Add):
+            incs[self_attr(n.stmt.target)] = n.stmt.value
     cfs = ctx.facts(sendm)
-    bc = [n for n in cf.nodes if n.kind == "stmt" and isinstance(n.stmt, ast.AugAssign) and unparse(n.stmt.target) == "byte_cnt"]
-    r.check(len(bc) == 1 and norm(bc[0].stmt.value) == "len(m)" and ("m is None", False) in cfs[bc[0].id],
-            "%s#byte-count-quantity" % sendm.qname, "queued byte count is not the sum of len(m) over non-null messages",
+
+    def local_defs(func, name):
+        return [x for x in walk_body_shallow(func.body) if isinstance(x, ast.Assign) and any(unparse(t) == name for t in x.targets)]
+    mv = incs.get("_waitingMsgCount")
+    mdefs = local_defs(sendm, unparse(mv)) if isinstance(mv, ast.Name) else []
+    r.check(mv is not None and (norm(mv) == "len(%s)" % msgs_p or (bool(mdefs) and all(norm(x.value) == "len(%s)" % msgs_p for x in mdefs))),
+            "%s#msg-count-quantity" % sendm.qname, "queued message count is not len(msgs)", where(sendm, sendm.node))
+    bv = incs.get("_waitingByteCount")
+    bname = unparse(bv) if isinstance(bv, ast.Name) else None
+    bc = [n for n in cf.nodes if n.kind == "stmt" and isinstance(n.stmt, ast.AugAssign) and unparse(n.stmt.target) == bname]
+    okb = len(bc) == 1 and isinstance(bc[0].stmt.value, ast.Call) and call_name(bc[0].stmt.value) == "len"
+    if okb:
+        ev = norm(bc[0].stmt.value.args[0])
+        okb = ("%s is None" % ev, False) in cfs[bc[0].id]
+    r.check(okb, "%s#byte-count-quantity" % sendm.qname, "queued byte count is not the sum of len(m) over non-null messages",
             where(sendm, bc[0].stmt if bc else sendm.node))
+    # dequeue side: the message count is reduced by len(<request>.messages), unconditionally with the removal
+    for f, cff, n, kind in sites:
+        if kind != "dequeue":
+            continue
+        decs = [m for m in cff.nodes if m.kind == "stmt" and isinstance(m.stmt, ast.AugAssign) and self_attr(m.stmt.target) == "_waitingMsgCount"]
+        okd = len(decs) == 1 and isinstance(decs[0].stmt.value, ast.Call) and call_name(decs[0].stmt.value) == "len"
+        if okd:
+            a = decs[0].stmt.value.args[0]
+            src = [norm(a)] if not isinstance(a, ast.Name) else [norm(x.value) for x in local_defs(f, a.id)]
+            okd = bool(src) and all(s.endswith(".messages") for s in src)
+            d1 = sorted(norm(t.stmt.test if t.kind == "test" else t.stmt.iter) for t, lab in cff.control_deps_transitive(decs[0].id))
+            d2 = sorted(norm(t.stmt.test if t.kind == "test" else t.stmt.iter) for t, lab in cff.control_deps_transitive(n.id))
+            okd = okd and d1 == d2
+        r.check(okd, "%s#dequeue-msg-count-quantity" % f.qname,
+                "on dequeue the message count is not reduced by len(request.messages) under the same conditions as the removal",
+                where(f, n.stmt), "a cancelled send with null messages leaves them counted: a later batch is dispatched below the threshold")
+        bdec = [m for m in cff.nodes if m.kind == "stmt" and isinstance(m.stmt, ast.AugAssign) and self_attr(m.stmt.target) == "_waitingByteCount"]
+        okq = len(bdec) == 1 and isinstance(bdec[0].stmt.value, ast.Call) and call_name(bdec[0].stmt.value) == "len"
+        r.check(okq, "%s#dequeue-byte-count-quantity" % f.qname, "on dequeue the byte count is not reduced by len(m) per message", where(f, n.stmt))
 
     # ---- R3 cancel before dispatch
     r = ctx.rule("R3", "canceller dequeues a still-queued request and reports request_sent=False; send stage skips "
@@ -158,7 +191,9 @@ def run(ctx):
     fs = ctx.facts(sreq)
     app = [n for n in scf.nodes if any(call_name(c) == "append" and "reqsByTopicPart" in (call_recv(c) or "") for c in n.calls())]
     need(app, "payload grouping append not found")
-    r.check(all(("req.deferred.called", False) in fs[n.id] for n in app), "%s#skip-fired" % sreq.qname,
+    appc = [c for c in app[0].calls() if call_name(c) == "append"][0]
+    rv = norm(appc.args[0])
+    r.check(all(("%s.deferred.called" % rv, False) in fs[n.id] for n in app), "%s#skip-fired" % sreq.qname,
             "send stage does not skip requests whose Deferred already fired (cancelled)", where(sreq, app[0].stmt),
             "cancelled-before-dispatch messages are transmitted")
 
@@ -258,6 +293,10 @@ MUTANTS = [
      "new": "\n        # Iterate over them", "expect": "C19.R2"},
     {"id": "cancel-adds", "file": "producer.py", "old": "self._waitingMsgCount -= len(msgs)", "new": "self._waitingMsgCount += len(msgs)",
      "expect": "C19.R2"},
+    {"id": "cancel-count-skips-nulls", "file": "producer.py",
+     "old": "                msgs = req.messages\n                self._waitingMsgCount -= len(msgs)\n                for m in (_m for _m in msgs if _m is not None):\n                    self._waitingByteCount -= len(m)",
+     "new": "                for m in req.messages:\n                    if m is None:\n                        continue\n                    self._waitingMsgCount -= 1\n                    self._waitingByteCount -= len(m)",
+     "expect": "C19.R2", "note": "seeded C19-1"},
     {"id": "cancel-claims-sent", "file": "producer.py", "old": "d.errback(CancelledError(request_sent=False))",
      "new": "d.errback(CancelledError(request_sent=True))", "expect": "C19.R3"},
     {"id": "send-stage-no-skip", "file": "producer.py",
